@@ -319,9 +319,9 @@ def body_crash(shard, *v):
 def _crash(shard, mbs, reset, h0, c0, m1, m2, crash_at, *sched):
     np_ = 1
     vd = Verdict()
-    mbs = decide(mbs, (1, 2))
-    reset = decide(reset, (0, 1))
-    h0 = decide(h0, (0, 1, 2, 3))
+    mbs = decide(mbs, (shard["mbs"],))
+    reset = decide(reset, (shard["reset"],))
+    h0 = decide(h0, (shard["h0"],))
     m1 = decide(m1, (0, 1, 3))
     m2 = decide(m2, (0, 2))
     if None in (mbs, reset, h0, m1, m2):
@@ -412,7 +412,7 @@ def _complete_in_order(sc, sched, phase):
     this phase is a schedule choice (the rest stays pending, possibly across the crash)."""
     if not sc.world.jobs:
         return
-    n = decide(sched[phase], (0, 1, 2, 3)) if phase < len(sched) else 3
+    n = decide(sched[phase], (0, 1, 2)) if phase < len(sched) else 2
     if n is None:
         n = 0
     for _ in range(n):
@@ -448,7 +448,12 @@ def obligations(tier):
                          "shard": {"reset": reset, "committed": committed},
                          "types": ["int"] * 4, "budget": 300})
     for consumer in ("sync", "buffer"):
-        obls.append({"name": "crash/%s" % consumer, "body": "body_crash", "pre": "pre_crash",
-                     "shard": {"consumer": consumer, "crash_window": 40 if q else 80},
-                     "types": ["int"] * (7 + 3), "budget": 900 if q else 3000})
+        for mbs in (1, 2):
+            for reset in (0, 1):
+                for h0 in ((0, 2) if q else (0, 1, 2, 3)):
+                    obls.append({"name": "crash/%s/mbs=%d/reset=%d/h0=%d" % (consumer, mbs, reset, h0),
+                                 "body": "body_crash", "pre": "pre_crash",
+                                 "shard": {"consumer": consumer, "crash_window": 40 if q else 80,
+                                           "mbs": mbs, "reset": reset, "h0": h0},
+                                 "types": ["int"] * (7 + 3), "budget": 900 if q else 3000})
     return obls
